@@ -10,6 +10,7 @@ mod e6;
 mod gen_;
 mod rt;
 mod specs;
+mod x86mem;
 
 use common::Tier;
 
@@ -64,18 +65,9 @@ fn main() {
         },
         Some("e6child") => e6::child_main(&args[2..]),
         Some("e6probe") => {
-            // e6probe <seed> [hit extra]: discovery pass, or one trial
             let seed: u64 = args.get(2).and_then(|s| s.parse().ok()).unwrap_or(1);
-            let t0 = std::time::Instant::now();
-            let seq = e6::discover(seed);
-            println!("seed {seed}: discovery {:?} {:.3}s", seq.as_ref().map(|s| s.as_ref().map(|s| s.len())), t0.elapsed().as_secs_f64());
-            if let (Ok(Some(seq)), Some(hit)) = (seq, args.get(3).and_then(|s| s.parse::<usize>().ok())) {
-                let extra = args.get(4).and_then(|s| s.parse().ok()).unwrap_or(0);
-                let t0 = std::time::Instant::now();
-                let r = e6::trial(seed, &seq, e6::Point { hit, extra });
-                println!("trial hit={hit} extra={extra}: {r:?} {:.3}s", t0.elapsed().as_secs_f64());
-            }
-            0
+            e6::probe(seed);
+            if x86mem::selftest() { 0 } else { 2 }
         }
         Some("selftest") => specs::selftest(&specs, &args[2..]),
         Some("list") => {
